@@ -8,23 +8,31 @@ def showIndexMatch : Option IndexMatch → String
   | some m => s!"{m.adapter} {m.astart} {m.astop} {m.rstart} {m.rstop} {m.score} {m.errors}"
 
 /-- `{<hex seq> <rateBits>}…` → adapters built like `PrefixAdapter/SuffixAdapter(seq, max_errors=rate, indels=…)`
-    (defaults: `adapter_wildcards=True`, `read_wildcards=False`) -/
-def parseAdapters (ty : AdapterType) (indels : Bool) : Nat → List String → Option (List Adapter × List String)
-  | 0, rest => some ([], rest)
-  | n+1, sq :: rb :: rest => do
+    (defaults: `adapter_wildcards=True`, `read_wildcards=False`); one `indels` flag per adapter -/
+def parseAdapters (ty : AdapterType) : List Bool → List String → Option (List Adapter × List String)
+  | [], rest => some ([], rest)
+  | indels :: flags, sq :: rb :: rest => do
     let sq ← unhex sq; let rate ← floatOfBits rb
     match mkAdapter ty sq rate 3 false true indels false with
     | .error _ => none
     | .ok (a, _) =>
-      let (as, rest) ← parseAdapters ty indels n rest
+      let (as, rest) ← parseAdapters ty flags rest
       pure (a :: as, rest)
   | _, _ => none
 
+/-- the `indels` token: `0` / `1` (all adapters) or `m` followed by one `0`/`1` per adapter (`;noindels` on some) -/
+def parseIndelFlags (tok : String) (n : Nat) : Option (List Bool) :=
+  if tok == "0" then some (List.replicate n false)
+  else if tok == "1" then some (List.replicate n true)
+  else match tok.toList with
+    | 'm' :: cs => if cs.length == n then cs.mapM (fun c => if c == '0' then some false else if c == '1' then some true else none) else none
+    | _ => none
+
 def parseIndexArgs (kind ind n : String) (rest : List String) : Option (Bool × List Adapter × List String) := do
   let isPrefix ← (if kind == "prefix" then some true else if kind == "suffix" then some false else none)
-  let indels ← parseBool ind
   let n ← n.toNat?
-  let (adapters, rest) ← parseAdapters (if isPrefix then .prefix else .suffix) indels n rest
+  let flags ← parseIndelFlags ind n
+  let (adapters, rest) ← parseAdapters (if isPrefix then .prefix else .suffix) flags rest
   pure (isPrefix, adapters, rest)
 
 def opsIndex : List String → Option String
@@ -36,7 +44,7 @@ def opsIndex : List String → Option String
   | ["editenv", t, k] => do
     let t ← unhex t; let k ← k.toNat?
     pure (",".intercalate ((editEnvironment t k).map (fun (s, e, m) => s!"{hex s}:{e}:{m}")))
-  -- indexlookup <prefix|suffix> <indels 0/1> <n adapters> {<hex seq> <rateBits>}… <hex read>…   (one or more reads;
+  -- indexlookup <prefix|suffix> <indels 0|1|m<flag per adapter>> <n adapters> {<hex seq> <rateBits>}… <hex read>…   (one or more reads;
   -- results joined by " | ")
   | "indexlookup" :: kind :: ind :: n :: rest => do
     let (isPrefix, adapters, reads) ← parseIndexArgs kind ind n rest
@@ -46,7 +54,7 @@ def opsIndex : List String → Option String
     | .error .emptyList => pure "error:empty-list"
     | .error (.notAcceptable i) => pure s!"error:not-acceptable {i}"
     | .ok idx => pure (" | ".intercalate (reads.map (fun r => showIndexMatch (indexMatchTo hashOps idx r))))
-  -- indexdump <prefix|suffix> <indels 0/1> <n adapters> {<hex seq> <rateBits>}… [<hex key>…]
+  -- indexdump <prefix|suffix> <indels 0|1|m<flags>> <n adapters> {<hex seq> <rateBits>}… [<hex key>…]
   --   → lengths, number of ambiguous keys, number of keys, then `key:adapter:e:m` (or `key:-`) for each requested key
   | "indexdump" :: kind :: ind :: n :: rest => do
     let (isPrefix, adapters, keys) ← parseIndexArgs kind ind n rest
